@@ -1,17 +1,23 @@
 (* QuadCurved.v -- the open Newton-Cotes rule of IntegratePlanar.vertical on
-   CURVED Bezier segments: the rule on n = 3+ex+ey+degree nodes is exact as soon
-   as the polynomial x(t)^ex * y(t)^ey * y'(t) has at most n coefficients, i.e.
-   (degree-1)*(ex+ey) <= 3.  Section 8: when n is odd the (symmetric) rule
-   gains one degree, so the area integrand is exact up to degree 5.  Section 9:
-   machine-checked failures just outside these bounds (cubic with ex = 2 and
-   ex = 3, sextic area) and a parabola cap of area 4/3.
+   CURVED Bezier segments.  Since the repair of F29 the rule uses
+   n = vertical_nodes d ex ey = max(3+ex+ey+d, d*(ex+ey+1)) nodes on a segment of
+   degree d, and the polynomial x(t)^ex * y(t)^ey * y'(t) has at most d*(ex+ey+1)
+   coefficients: the rule is exact for EVERY exponent pair, as long as n stays
+   within the 19-node table of Quadrature.nc_poly_exact (section 5).  Section 6:
+   areas up to degree 9, moments of order <= 4 for cubic and <= 7 for quadratic
+   boundaries.  Section 8: when n is odd the (symmetric) rule gains one degree (a
+   fact about the rule, no longer needed).  Section 9: the rule BEFORE the repair
+   (vertical_old, 3+ex+ey+d nodes) was exact only for (d-1)*(ex+ey) <= 3; the
+   machine-checked failures just outside that bound (cubic with ex = 2 and ex = 3,
+   sextic area) are kept as regression examples, each paired with the exactness
+   of the repaired rule on the same segment; a parabola cap of area 4/3.
 
    Range of the statements:
    - the polynomial form of eval (seg_px_poly / seg_py_poly): EVERY segment;
    - the derivative (eval (derivate s) = formal derivative): degrees 1..16,
      which is everything the hypotheses of vertical_curved_exact allow
-     (3+ex+ey+degree <= 19 forces degree <= 16), so the theorems below carry no
-     extra degree hypothesis;
+     (3+ex+ey+degree <= vertical_nodes <= 19 forces degree <= 16), so the
+     theorems below carry no extra degree hypothesis;
    - "seg_px_poly is the Bernstein polynomial of the control points": degrees
      1..6 (from BezierFacts.eval_bernstein_le6). *)
 From SV Require Import Model.Shape Spec.Spec Lemmas.BezierFacts Lemmas.Quadrature.
@@ -261,13 +267,48 @@ Qed.
 (* ------------------------------------------------------------------ *)
 (* 5. exactness of the rule on curved segments                         *)
 (* ------------------------------------------------------------------ *)
+(* the node count of the repaired rule *)
+Lemma vertical_nodes_ge : forall d ex ey,
+  (3 + ex + ey + d <= vertical_nodes d ex ey)%nat /\
+  (d * (ex + ey) + d <= vertical_nodes d ex ey)%nat.
+Proof.
+  intros d ex ey. unfold vertical_nodes.
+  replace (d * (ex + ey + 1))%nat with (d * (ex + ey) + d)%nat by lia. lia.
+Qed.
+(* where the old count was already enough, nothing changed *)
+Lemma vertical_nodes_old : forall d ex ey,
+  (d * (ex + ey) + d <= 3 + ex + ey + d)%nat ->
+  vertical_nodes d ex ey = (3 + ex + ey + d)%nat.
+Proof.
+  intros d ex ey H. unfold vertical_nodes.
+  replace (d * (ex + ey + 1))%nat with (d * (ex + ey) + d)%nat by lia. lia.
+Qed.
+Lemma vertical_nodes_old' : forall d ex ey, (1 <= d)%nat -> ((d - 1) * (ex + ey) <= 3)%nat ->
+  vertical_nodes d ex ey = (3 + ex + ey + d)%nat.
+Proof.
+  intros d ex ey Hd H. apply vertical_nodes_old.
+  destruct d as [|d]; [lia|]. replace (S d - 1)%nat with d in H by lia. lia.
+Qed.
+Lemma vertical_nodes_line : forall ex ey, vertical_nodes 1 ex ey = (ex + ey + 4)%nat.
+Proof. intros ex ey. unfold vertical_nodes. lia. Qed.
+(* fewer control points, fewer nodes *)
+Lemma vertical_nodes_mono : forall d d' ex ey, (d' <= d)%nat ->
+  (vertical_nodes d' ex ey <= vertical_nodes d ex ey)%nat.
+Proof.
+  intros d d' ex ey H. unfold vertical_nodes.
+  pose proof (Nat.mul_le_mono_r d' d (ex + ey + 1) H). lia.
+Qed.
+(* the table of 19 nodes bounds the degree by 16 *)
+Lemma vertical_nodes_degree : forall d ex ey, (vertical_nodes d ex ey <= 19)%nat -> (d <= 16)%nat.
+Proof. intros d ex ey H. pose proof (vertical_nodes_ge d ex ey). lia. Qed.
+
 Lemma vertical_curved_quad : forall s ex ey, (1 <= degree s <= 16)%nat ->
   vertical s ex ey ==
-  quad (nc_w (3 + ex + ey + degree s)) (open_linspace (3 + ex + ey + degree s))
+  quad (nc_w (vertical_nodes (degree s) ex ey)) (open_linspace (vertical_nodes (degree s) ex ey))
        (peval (curved_integrand s ex ey)).
 Proof.
   intros s ex ey Hd. unfold vertical. rewrite Qred_correct.
-  set (n := (3 + ex + ey + degree s)%nat).
+  set (n := vertical_nodes (degree s) ex ey).
   change (quad (nc_w n) (open_linspace n)
             (fun t => Qpow (px (eval s t)) ex * Qpow (py (eval s t)) ey *
                       py (eval (derivate s) t))
@@ -278,40 +319,60 @@ Proof.
   reflexivity.
 Qed.
 
+(* EVERY exponent pair: the rule has at least as many nodes as the integrand has
+   coefficients; the only bound left is the 19-node table *)
 Theorem vertical_curved_exact : forall s ex ey,
   (1 <= degree s)%nat ->
-  (degree s * (ex + ey) + degree s <= 3 + ex + ey + degree s)%nat ->
-  (3 + ex + ey + degree s <= 19)%nat ->
+  (vertical_nodes (degree s) ex ey <= 19)%nat ->
   vertical s ex ey == pint01 (curved_integrand s ex ey).
 Proof.
-  intros s ex ey Hd Hdeg Hn.
+  intros s ex ey Hd Hn.
+  pose proof (vertical_nodes_ge (degree s) ex ey) as [G1 G2].
   rewrite vertical_curved_quad by lia.
   apply nc_poly_exact; [lia|].
   pose proof (length_curved_integrand s ex ey Hd). lia.
 Qed.
 
-(* the same with the hypothesis in the form (degree-1)*(ex+ey) <= 3 *)
+(* the range that was exact before the repair: (degree-1)*(ex+ey) <= 3 *)
 Corollary vertical_curved_exact' : forall s ex ey,
   (1 <= degree s)%nat -> ((degree s - 1) * (ex + ey) <= 3)%nat ->
   (3 + ex + ey + degree s <= 19)%nat ->
   vertical s ex ey == pint01 (curved_integrand s ex ey).
 Proof.
-  intros s ex ey Hd Hdeg Hn. apply vertical_curved_exact; [exact Hd| |exact Hn].
-  destruct (degree s) as [|d]; [lia|].
-  replace (S d - 1)%nat with d in Hdeg by lia. lia.
+  intros s ex ey Hd Hdeg Hn. apply vertical_curved_exact; [exact Hd|].
+  rewrite (vertical_nodes_old' _ _ _ Hd Hdeg). exact Hn.
+Qed.
+
+(* a uniform bound D on the degree *)
+Corollary vertical_curved_exact_le : forall D s ex ey,
+  (1 <= degree s <= D)%nat -> (vertical_nodes D ex ey <= 19)%nat ->
+  vertical s ex ey == pint01 (curved_integrand s ex ey).
+Proof.
+  intros D s ex ey Hd Hn. apply vertical_curved_exact; [lia|].
+  pose proof (vertical_nodes_mono D (degree s) ex ey ltac:(lia)). lia.
 Qed.
 
 (* ------------------------------------------------------------------ *)
 (* 6. areas and moments of curved shapes                               *)
 (* ------------------------------------------------------------------ *)
-Theorem area_curved_exact : forall j,
-  (forall s, In s j -> (1 <= degree s <= 4)%nat) ->
+(* area: max(4+d, 2d) nodes, inside the table for every degree <= 9 *)
+Theorem area_curved_exact9 : forall j,
+  (forall s, In s j -> (1 <= degree s <= 9)%nat) ->
   jordan_area j == Qsum (map (fun s => pint01 (curved_integrand s 1 0)) j).
 Proof.
   intros j Hj. unfold jordan_area, jordan_vertical. rewrite Qred_correct.
   apply Qsum_map_ext. intros s Hs. specialize (Hj s Hs).
-  apply vertical_curved_exact'; lia.
+  apply (vertical_curved_exact_le 9); [exact Hj|vm_compute; lia].
 Qed.
+(* the ranges known before the repair *)
+Corollary area_curved_exact : forall j,
+  (forall s, In s j -> (1 <= degree s <= 4)%nat) ->
+  jordan_area j == Qsum (map (fun s => pint01 (curved_integrand s 1 0)) j).
+Proof. intros j Hj. apply area_curved_exact9. intros s Hs. specialize (Hj s Hs). lia. Qed.
+Corollary area_curved_exact5 : forall j,
+  (forall s, In s j -> (1 <= degree s <= 5)%nat) ->
+  jordan_area j == Qsum (map (fun s => pint01 (curved_integrand s 1 0)) j).
+Proof. intros j Hj. apply area_curved_exact9. intros s Hs. specialize (Hj s Hs). lia. Qed.
 
 Definition edge_moment_curved (s : seg) (a b : nat) : Q :=
   pint01 (curved_integrand s (S a) b) / nQ (S a).
@@ -321,20 +382,18 @@ Definition moment_spec_curved (Sh : shape) (a b : nat) : Q :=
   Qsum (map (fun j => jordan_moment_spec_curved j a b) (jordans Sh)).
 
 Lemma jordan_moment_curved_exact : forall j a b,
-  (forall s, In s j -> (1 <= degree s)%nat /\ ((degree s - 1) * (S a + b) <= 3)%nat /\
-                       (3 + S a + b + degree s <= 19)%nat) ->
+  (forall s, In s j -> (1 <= degree s)%nat /\ (vertical_nodes (degree s) (S a) b <= 19)%nat) ->
   jordan_vertical j (S a) b == Qsum (map (fun s => pint01 (curved_integrand s (S a) b)) j).
 Proof.
   intros j a b Hj. unfold jordan_vertical. rewrite Qred_correct.
-  apply Qsum_map_ext. intros s Hs. destruct (Hj s Hs) as (H1 & H2 & H3).
-  apply vertical_curved_exact'; assumption.
+  apply Qsum_map_ext. intros s Hs. destruct (Hj s Hs) as (H1 & H2).
+  apply vertical_curved_exact; assumption.
 Qed.
 
 (* general form: the node bound is stated per segment *)
 Theorem moment_curved_exact_gen : forall Sh a b,
   (forall j s, In j (jordans Sh) -> In s j ->
-     (1 <= degree s)%nat /\ ((degree s - 1) * (S a + b) <= 3)%nat /\
-     (3 + S a + b + degree s <= 19)%nat) ->
+     (1 <= degree s)%nat /\ (vertical_nodes (degree s) (S a) b <= 19)%nat) ->
   moment Sh a b ==
   Qsum (map (fun j => Qsum (map (fun s => pint01 (curved_integrand s (S a) b)) j))
             (jordans Sh)) / nQ (S a).
@@ -345,7 +404,43 @@ Proof.
   intros s Hs. exact (H j s Hj Hs).
 Qed.
 
+(* (since the repair the general form needs no separate bound on a + b: same statement) *)
 Theorem moment_curved_exact : forall Sh a b,
+  (forall j s, In j (jordans Sh) -> In s j ->
+     (1 <= degree s)%nat /\ (vertical_nodes (degree s) (S a) b <= 19)%nat) ->
+  moment Sh a b ==
+  Qsum (map (fun j => Qsum (map (fun s => pint01 (curved_integrand s (S a) b)) j))
+            (jordans Sh)) / nQ (S a).
+Proof. exact moment_curved_exact_gen. Qed.
+
+Lemma moment_spec_curved_unfold : forall Sh a b,
+  Qsum (map (fun j => Qsum (map (fun s => pint01 (curved_integrand s (S a) b)) j))
+            (jordans Sh)) / nQ (S a) == moment_spec_curved Sh a b.
+Proof.
+  intros Sh a b.
+  unfold moment_spec_curved, jordan_moment_spec_curved, edge_moment_curved.
+  rewrite Qsum_map_div. apply Qsum_map_ext. intros j _.
+  apply Qsum_map_div.
+Qed.
+
+Theorem moment_curved_spec : forall Sh a b,
+  (forall j s, In j (jordans Sh) -> In s j ->
+     (1 <= degree s)%nat /\ (vertical_nodes (degree s) (S a) b <= 19)%nat) ->
+  moment Sh a b == moment_spec_curved Sh a b.
+Proof.
+  intros Sh a b H. rewrite (moment_curved_exact Sh a b H). apply moment_spec_curved_unfold.
+Qed.
+
+(* the statements in the shape they had before the repair: (d-1)*(a+1+b) <= 3 *)
+Lemma old_moment_hyps : forall d a b, (1 <= d)%nat -> ((d - 1) * (S a + b) <= 3)%nat ->
+  (a + b <= 11)%nat -> (vertical_nodes d (S a) b <= 19)%nat.
+Proof.
+  intros d a b H1 H2 Hab. rewrite (vertical_nodes_old' _ _ _ H1 H2).
+  (* (d-1)*(a+b+1) <= 3 with a+b+1 >= 1 gives d <= 4 *)
+  assert (d <= 4)%nat; [|lia].
+  destruct d as [|[|[|[|[|d]]]]]; lia.
+Qed.
+Corollary moment_curved_exact' : forall Sh a b,
   (forall j s, In j (jordans Sh) -> In s j ->
      (1 <= degree s)%nat /\ ((degree s - 1) * (S a + b) <= 3)%nat) ->
   (a + b <= 11)%nat ->
@@ -355,22 +450,52 @@ Theorem moment_curved_exact : forall Sh a b,
 Proof.
   intros Sh a b H Hab. apply moment_curved_exact_gen.
   intros j s Hj Hs. destruct (H j s Hj Hs) as [H1 H2].
-  repeat split; try assumption.
-  (* (d-1)*(a+b+1) <= 3 with a+b+1 >= 1 gives d <= 4 *)
-  assert (degree s <= 4)%nat; [|lia].
-  destruct (degree s) as [|[|[|[|[|d]]]]]; lia.
+  split; [exact H1|apply old_moment_hyps; assumption].
 Qed.
-
-Corollary moment_curved_spec : forall Sh a b,
+Corollary moment_curved_spec' : forall Sh a b,
   (forall j s, In j (jordans Sh) -> In s j ->
      (1 <= degree s)%nat /\ ((degree s - 1) * (S a + b) <= 3)%nat) ->
   (a + b <= 11)%nat ->
   moment Sh a b == moment_spec_curved Sh a b.
 Proof.
-  intros Sh a b H Hab. rewrite (moment_curved_exact Sh a b H Hab).
-  unfold moment_spec_curved, jordan_moment_spec_curved, edge_moment_curved.
-  rewrite Qsum_map_div. apply Qsum_map_ext. intros j _.
-  apply Qsum_map_div.
+  intros Sh a b H Hab. rewrite (moment_curved_exact' Sh a b H Hab).
+  apply moment_spec_curved_unfold.
+Qed.
+
+(* a uniform bound D on the degrees of the boundary *)
+Theorem moment_degree_exact : forall D Sh a b,
+  (forall j s, In j (jordans Sh) -> In s j -> (1 <= degree s <= D)%nat) ->
+  (vertical_nodes D (S a) b <= 19)%nat ->
+  moment Sh a b == moment_spec_curved Sh a b.
+Proof.
+  intros D Sh a b H Hn. apply moment_curved_spec.
+  intros j s Hj Hs. specialize (H j s Hj Hs). split; [lia|].
+  pose proof (vertical_nodes_mono D (degree s) (S a) b ltac:(lia)). lia.
+Qed.
+
+(* cubic boundaries: 3*(a+b+2) nodes, every moment of order a + b <= 4 *)
+Theorem moment_cubic_exact4 : forall Sh a b,
+  (forall j s, In j (jordans Sh) -> In s j -> (1 <= degree s <= 3)%nat) ->
+  (a + b <= 4)%nat ->
+  moment Sh a b == moment_spec_curved Sh a b.
+Proof.
+  intros Sh a b H Hab. apply (moment_degree_exact 3); [exact H|].
+  unfold vertical_nodes. lia.
+Qed.
+(* in particular the moments of order <= 2 (area, centroid, inertia): at most 12 nodes *)
+Corollary moment_cubic_exact : forall Sh a b,
+  (forall j s, In j (jordans Sh) -> In s j -> (1 <= degree s <= 3)%nat) ->
+  (a + b <= 2)%nat ->
+  moment Sh a b == moment_spec_curved Sh a b.
+Proof. intros Sh a b H Hab. apply moment_cubic_exact4; [exact H|lia]. Qed.
+(* quadratic boundaries: 2*(a+b+2) nodes, every moment of order a + b <= 7 *)
+Theorem moment_quadratic_exact : forall Sh a b,
+  (forall j s, In j (jordans Sh) -> In s j -> (1 <= degree s <= 2)%nat) ->
+  (a + b <= 7)%nat ->
+  moment Sh a b == moment_spec_curved Sh a b.
+Proof.
+  intros Sh a b H Hab. apply (moment_degree_exact 2); [exact H|].
+  unfold vertical_nodes. lia.
 Qed.
 
 (* ------------------------------------------------------------------ *)
@@ -457,6 +582,8 @@ Qed.
 (* ------------------------------------------------------------------ *)
 (* 8. symmetric-rule bonus: an odd number of nodes gains one degree    *)
 (* ------------------------------------------------------------------ *)
+(* A fact about the rule itself.  Before the repair it extended the exact range of the
+   area to degree 5; the repaired node count never relies on it (section 5). *)
 Lemma nc_sweep_odd :
   forallb (fun n => Qeq_bool (quad (nc_w n) (open_linspace n) (fun t => Qpow t n))
                              (1 / nQ (S n)))
@@ -476,70 +603,96 @@ Proof.
     do 20 (destruct n as [|n]; [try discriminate Hodd; try lia; cbn; tauto|]). lia.
 Qed.
 
-Theorem vertical_curved_exact_odd : forall s ex ey,
-  (1 <= degree s)%nat ->
-  Nat.odd (3 + ex + ey + degree s) = true ->
-  (degree s * (ex + ey) + degree s <= 4 + ex + ey + degree s)%nat ->
+(* ------------------------------------------------------------------ *)
+(* 9. the rule before the repair (regression), and non-vacuity         *)
+(* ------------------------------------------------------------------ *)
+(* IntegratePlanar.vertical as it was before the repair of F29: 3+ex+ey+degree nodes *)
+Definition vertical_old (s : seg) (ex ey : nat) : Q :=
+  let n := (3 + ex + ey + degree s)%nat in
+  let ds := derivate s in
+  Qred (Qsum (map2 (fun w t =>
+                let P := eval s t in
+                w * (Qpow (px P) ex * Qpow (py P) ey * py (eval ds t)))
+             (nc_w n) (open_linspace n))).
+
+(* where the old count was enough the two rules are the same computation *)
+Lemma vertical_old_same : forall s ex ey,
+  (degree s * (ex + ey) + degree s <= 3 + ex + ey + degree s)%nat ->
+  vertical_old s ex ey = vertical s ex ey.
+Proof.
+  intros s ex ey H. unfold vertical_old, vertical.
+  rewrite (vertical_nodes_old _ _ _ H). reflexivity.
+Qed.
+Corollary vertical_old_line : forall A B ex ey, vertical_old [A; B] ex ey = vertical [A; B] ex ey.
+Proof. intros A B ex ey. apply vertical_old_same. unfold degree. cbn [length Nat.sub]. lia. Qed.
+(* hence the old rule was exact in the old range, and only there in general *)
+Corollary vertical_old_exact : forall s ex ey,
+  (1 <= degree s)%nat -> ((degree s - 1) * (ex + ey) <= 3)%nat ->
   (3 + ex + ey + degree s <= 19)%nat ->
-  vertical s ex ey == pint01 (curved_integrand s ex ey).
+  vertical_old s ex ey == pint01 (curved_integrand s ex ey).
 Proof.
-  intros s ex ey Hd Hodd Hdeg Hn.
-  rewrite vertical_curved_quad by lia.
-  apply nc_poly_exact_odd; [lia|exact Hodd|].
-  pose proof (length_curved_integrand s ex ey Hd). lia.
+  intros s ex ey Hd H Hn. rewrite vertical_old_same.
+  - apply vertical_curved_exact'; assumption.
+  - destruct (degree s) as [|d]; [lia|]. replace (S d - 1)%nat with d in H by lia. lia.
 Qed.
 
-(* the area integrand is integrated exactly up to degree 5 *)
-Theorem area_curved_exact5 : forall j,
-  (forall s, In s j -> (1 <= degree s <= 5)%nat) ->
-  jordan_area j == Qsum (map (fun s => pint01 (curved_integrand s 1 0)) j).
-Proof.
-  intros j Hj. unfold jordan_area, jordan_vertical. rewrite Qred_correct.
-  apply Qsum_map_ext. intros s Hs. specialize (Hj s Hs).
-  assert (Hc : (degree s <= 4)%nat \/ degree s = 5%nat) by lia.
-  destruct Hc as [Hc|Hc].
-  - apply vertical_curved_exact'; lia.
-  - apply vertical_curved_exact_odd; rewrite ?Hc; try lia. reflexivity.
-Qed.
-
-(* ------------------------------------------------------------------ *)
-(* 9. sharpness witnesses and non-vacuity                              *)
-(* ------------------------------------------------------------------ *)
 Ltac Qneq_compute := let H := fresh in intro H; vm_compute in H; discriminate H.
 
-(* cubic, third power of x: (3-1)*3 = 6 > 3, 9 nodes for 12 coefficients *)
-Example cubic_second_moment_inexact :
-  exists s, degree s = 3%nat /\ ~ vertical s 3 0 == pint01 (curved_integrand s 3 0).
-Proof.
-  exists [(0, 0); (1, 0); (0, 1); (2, 3)]. split; [reflexivity|]. Qneq_compute.
-Qed.
-(* the first failing case of a cubic: (3-1)*2 = 4 > 3, 8 nodes for 9 coefficients *)
-Example cubic_first_moment_inexact :
+(* the old bound was sharp.  Cubic, third power of x: (3-1)*3 = 6 > 3, the old rule had 9
+   nodes for 12 coefficients; the repaired one has 12 *)
+Example old_rule_cubic_second_moment_inexact :
   exists s, degree s = 3%nat /\
-    (degree s * (2 + 0) + degree s = S (3 + 2 + 0 + degree s))%nat /\
-    ~ vertical s 2 0 == pint01 (curved_integrand s 2 0).
+    ~ vertical_old s 3 0 == pint01 (curved_integrand s 3 0) /\
+    vertical s 3 0 == pint01 (curved_integrand s 3 0).
 Proof.
-  exists [(0, 0); (1, 0); (1, 1); (2, 1)]. split; [reflexivity|]. split; [reflexivity|].
-  Qneq_compute.
+  exists [(0, 0); (1, 0); (0, 1); (2, 3)]. split; [reflexivity|]. split; [Qneq_compute|].
+  apply vertical_curved_exact; vm_compute; lia.
 Qed.
-(* the area of a sextic edge is not exact: 10 nodes for 12 coefficients *)
-Example sextic_area_inexact :
-  exists s, degree s = 6%nat /\ ~ vertical s 1 0 == pint01 (curved_integrand s 1 0).
+(* the first failing case of a cubic: (3-1)*2 = 4 > 3, 8 nodes for 9 coefficients; now 9 *)
+Example old_rule_cubic_first_moment_inexact :
+  exists s, degree s = 3%nat /\
+    ~ vertical_old s 2 0 == pint01 (curved_integrand s 2 0) /\
+    vertical s 2 0 == pint01 (curved_integrand s 2 0).
+Proof.
+  exists [(0, 0); (1, 0); (1, 1); (2, 1)]. split; [reflexivity|]. split; [Qneq_compute|].
+  apply vertical_curved_exact; vm_compute; lia.
+Qed.
+(* the node counts of that case: one node short before, exactly enough now *)
+Example old_rule_cubic_first_moment_nodes :
+  (3 * (2 + 0) + 3 = S (3 + 2 + 0 + 3))%nat /\ vertical_nodes 3 2 0 = 9%nat.
+Proof. split; reflexivity. Qed.
+(* the area of a sextic edge: 10 nodes for 12 coefficients; now max(10, 12) = 12 *)
+Example old_rule_sextic_area_inexact :
+  exists s, degree s = 6%nat /\
+    ~ vertical_old s 1 0 == pint01 (curved_integrand s 1 0) /\
+    vertical s 1 0 == pint01 (curved_integrand s 1 0).
 Proof.
   exists [(0, 0); (1, 0); (0, 1); (1, 1); (2, 0); (3, 5); (1, 7)].
-  split; [reflexivity|]. Qneq_compute.
+  split; [reflexivity|]. split; [Qneq_compute|].
+  apply vertical_curved_exact; vm_compute; lia.
 Qed.
+(* the same three, the new values computed rather than derived *)
+Example repaired_rule_values :
+  Qred (vertical [(0, 0); (1, 0); (0, 1); (2, 3)] 3 0) =
+    Qred (pint01 (curved_integrand [(0, 0); (1, 0); (0, 1); (2, 3)] 3 0)) /\
+  Qred (vertical [(0, 0); (1, 0); (1, 1); (2, 1)] 2 0) =
+    Qred (pint01 (curved_integrand [(0, 0); (1, 0); (1, 1); (2, 1)] 2 0)) /\
+  Qred (vertical [(0, 0); (1, 0); (0, 1); (1, 1); (2, 0); (3, 5); (1, 7)] 1 0) =
+    Qred (pint01 (curved_integrand [(0, 0); (1, 0); (0, 1); (1, 1); (2, 0); (3, 5); (1, 7)] 1 0)).
+Proof. vm_compute. repeat split; reflexivity. Qed.
 
 (* a parabola cap: y = 1 - x^2 above [-1,1], area 4/3 *)
 Definition cap : jordan := [ [(-1, 0); (1, 0)]; [(1, 0); (0, 2); (-1, 0)] ].
 Definition cap_shape : shape := SC (CS cap).
 Example cap_hyps :
-  (forall s, In s cap -> (1 <= degree s <= 4)%nat) /\
+  (forall s, In s cap -> (1 <= degree s <= 9)%nat) /\
   (forall j s, In j (jordans cap_shape) -> In s j ->
-     (1 <= degree s)%nat /\ ((degree s - 1) * (S 2 + 0) <= 3)%nat).
+     (1 <= degree s)%nat /\ (vertical_nodes (degree s) (S 2) 0 <= 19)%nat) /\
+  (forall j s, In j (jordans cap_shape) -> In s j -> (1 <= degree s <= 3)%nat).
 Proof.
-  split.
+  split; [|split].
   - intros s [<-|[<-|[]]]; vm_compute; lia.
+  - intros j s [<-|[]] [<-|[<-|[]]]; vm_compute; lia.
   - intros j s [<-|[]] [<-|[<-|[]]]; vm_compute; lia.
 Qed.
 Example cap_area :
@@ -550,15 +703,25 @@ Proof. vm_compute. split; reflexivity. Qed.
 Example cap_moment_20 :
   moment cap_shape 2 0 = 4 # 15 /\ Qred (moment_spec_curved cap_shape 2 0) = 4 # 15.
 Proof. vm_compute. split; reflexivity. Qed.
+(* a moment that was outside the old range ((2-1)*(4+1) = 5 > 3): int int x^4 = 4/35 *)
+Example cap_moment_40 :
+  moment cap_shape 4 0 = 4 # 35 /\ Qred (moment_spec_curved cap_shape 4 0) = 4 # 35.
+Proof. vm_compute. split; reflexivity. Qed.
 
 Print Assumptions eval_px_poly.
 Print Assumptions eval_derivate_py_poly.
 Print Assumptions vertical_curved_exact.
+Print Assumptions vertical_curved_exact'.
+Print Assumptions area_curved_exact9.
 Print Assumptions area_curved_exact.
+Print Assumptions area_curved_exact5.
 Print Assumptions moment_curved_exact.
 Print Assumptions moment_curved_spec.
+Print Assumptions moment_curved_spec'.
+Print Assumptions moment_cubic_exact.
+Print Assumptions moment_quadratic_exact.
 Print Assumptions curved_integrand_line.
-Print Assumptions vertical_curved_exact_odd.
-Print Assumptions area_curved_exact5.
-Print Assumptions cubic_second_moment_inexact.
+Print Assumptions old_rule_cubic_first_moment_inexact.
+Print Assumptions old_rule_cubic_second_moment_inexact.
+Print Assumptions old_rule_sextic_area_inexact.
 Print Assumptions cap_area.
